@@ -15,8 +15,8 @@ ASSUMPTIONS = [
     "'valid SEC1 public key' (p2pk_script_valid_key, p2pk_script_both, refuses_others_total, scriptpubkey_errors) is relative to "
     "C14's premise sec1_facts p a b: PROVED by computation for y^2=x^3+7 over F_43, F_79, F_67, a premise (not an axiom) for "
     "secp256k1; all address theorems and p2pk_script (stated on is_point = True) hold for arbitrary curve parameters",
-    "FINDING proved as C08_b58_payload_length_refuted: the Base58Check branch of scriptpubkey does not check the payload "
-    "length; refuses_others is stated for what the code refuses (non-keys, unknown version bytes, non-addresses)",
+    "repaired defect found by this model: the Base58Check branch of scriptpubkey did not check the payload length (fix: "
+    "commit in /repo); refuses_others is stated at full strength, every returned script is a standard form",
     "reuses the models and theorems of C07 (Base58Check), C06 (segwit addresses), C13 (script builders, opcode table), "
     "C14 (SEC1 decoding) without change",
     "modelled, not verified: src/bits/script/utils.py (scriptpubkey), src/bits/utils.py (to_bitcoin_address)",
@@ -236,14 +236,14 @@ def sec1(x, y, compressed):
 
 
 def ref_scriptpubkey(cv, data):
-    """what the property demands for an input: ("script", bytes) | ("refuse", why) | ("finding", why)"""
+    """what the property demands for an input: ("script", bytes) | ("refuse", why)"""
     if ref_is_key(cv, data):
         return ("script", tpl_p2pk(data))
     d = ref_b58check_dec(data)
     if d is not None:
         if d[:1] and d[0] in P2PKH_VERSIONS + P2SH_VERSIONS:
             if len(d) != 21:
-                return ("finding", "Base58Check with a known version byte but a %d-byte payload" % (len(d) - 1))
+                return ("refuse", "Base58Check with a known version byte but a %d-byte payload" % (len(d) - 1))
             return ("script", tpl_p2pkh(d[1:]) if d[0] in P2PKH_VERSIONS else tpl_p2sh(d[1:]))
         return ("refuse", "Base58Check with an unknown version byte")
     sw = ref_segwit_decode(data)
@@ -427,7 +427,7 @@ def gen_cases(rng, tier):
                           ("p2pkh", "bogus", 0), ("nonsense", "regtest", 1), ("p2wsh", "regtest", None)]:
         out.append(case("enc-domain", "to_bitcoin_address", h, ty, net, wv, strict=True))
         out.append(case("enc-domain", "addr_script", 0, h, ty, net, wv, strict=True))
-    # Base58Check addresses with a hash of the wrong size (FINDING: not refused) / oversize (OverflowError)
+    # Base58Check addresses with a hash of the wrong size (repaired defect: refused now), also 256 bytes and more
     for net in NETS:
         for ty in ("p2pkh", "p2sh"):
             for L in (0, 1, 5, 19, 21, 32, 33, 64, 75, 76, 255):
@@ -624,20 +624,7 @@ def shrink(c):
             yield c2
 
 
-def _is_wrong_length_b58(c):
-    """the input is (or encodes to) a checksum-valid Base58Check string with a known version byte and a payload
-    that is not 20 bytes long (at most 255: longer ones ARE refused, with OverflowError)"""
-    op, a = c["op"], c["args"]
-    if op == "scriptpubkey":
-        d = ref_b58check_dec(a[1])
-        return d is not None and d[:1] != b"" and d[0] in P2PKH_VERSIONS + P2SH_VERSIONS and len(d) != 21 and len(d) <= 256
-    if op == "addr_script":
-        _, payload, ty, net, wv = a
-        return wv is None and ty in ("p2pkh", "p2sh") and net in NETS and len(payload) != 20 and len(payload) <= 255
-    return False
-
-
-KNOWN = {"b58-payload-length": _is_wrong_length_b58}
+KNOWN = {}
 
 
 def extra_checks(ctx):
@@ -645,18 +632,12 @@ def extra_checks(ctx):
     the correspondence alone would not notice a defect shared by the model and the code"""
     import random
     impl = ctx["impl"]
-    has_known = any(k["id"] == "b58-payload-length" for k in ctx["known"])
     cases = gen_cases(random.Random("C08-literal-%s" % ctx["tier"]), "quick")
     out = []
-    n = known_seen = 0
+    n = 0
     for c in cases:
         if c["cls"] in FILLER:
             continue
-        if _is_wrong_length_b58(c):
-            known_seen += 1
-            # the known finding: a few are handed to the KNOWN matcher (common.py) when KNOWN_FINDINGS.txt lists it
-            if not has_known or known_seen > 3:
-                continue
         n += 1
         verdict = impl.oracle(c)
         if verdict is None:
@@ -665,11 +646,9 @@ def extra_checks(ctx):
                     "expected": "the standard template of the input's address kind, or a refusal (independent references "
                                 "in harness/c08.py)",
                     "oracle": verdict, "failing_input_found": True})
-        if len(out) >= 6:
+        if len(out) >= 5:
             break
-    ex = ctx["stats"].setdefault("extra", {})
-    ex["literal_property_evaluations"] = n
-    ex["known_finding_inputs_seen"] = known_seen
+    ctx["stats"].setdefault("extra", {})["literal_property_evaluations"] = n
     return out
 
 
